@@ -87,7 +87,7 @@ EXPORT errno_t _strzero_s_chk(char *dest, rsize_t dmax,
         dest++;
     }
 #ifdef SAFECLIB_STR_NULL_SLACK
-    if (!*dest)
+    if (dmax && !*dest)
         memset(dest, 0, dmax);
 #endif
 
